@@ -13,9 +13,9 @@ ev=/tmp/ev-$sid
 git -C /repo worktree remove --force $ev 2>/dev/null
 git -C /repo worktree add -q $ev HEAD || exit 2
 cp $dst/demo_test.go $ev/$dir/zz_demo_test.go
-( cd $ev && go test -vet=off -count=1 -run 'Demo|demo' ./$dir/ > /tmp/ev-$sid.clean.log 2>&1 ); clean=$?
+( cd $ev && go test -vet=off -count=1 -run 'Demo|demo|Seed' ./$dir/ > /tmp/ev-$sid.clean.log 2>&1 ); clean=$?
 ( cd $ev && git apply $dst/patch.diff ) || { echo "patch does not apply"; git -C /repo worktree remove --force $ev; exit 2; }
-( cd $ev && go test -vet=off -count=1 -run 'Demo|demo' ./$dir/ > /tmp/ev-$sid.mut.log 2>&1 ); mut=$?
+( cd $ev && go test -vet=off -count=1 -run 'Demo|demo|Seed' ./$dir/ > /tmp/ev-$sid.mut.log 2>&1 ); mut=$?
 rm $ev/$dir/zz_demo_test.go
 ( cd $ev && go build ./... && go test -vet=off -count=1 ./... > /tmp/ev-$sid.suite.log 2>&1 ); suite=$?
 git -C /repo worktree remove --force $ev
